@@ -68,3 +68,40 @@ class Sink(object):
     @property
     def value(self):
         return b''.join(self.chunks)
+
+
+def run_interleaved(fn_a, fn_b, k, only_substr='/minecraft/'):
+    """Harness-owned 'preemption': call fn_a(); at its k-th traced line event
+    (in frames whose file name contains only_substr) suspend it, run fn_b()
+    to completion, then let fn_a continue.  For code whose state is confined
+    to locals this is indistinguishable from running the two calls one after
+    the other - exactly what a thread switch at that line boundary would
+    show.  Only for lock-free code (the nested call runs on the same thread).
+    Returns (result of fn_a, result of fn_b or None, whether fn_b ran)."""
+    count = [0]
+    out = {'b': None, 'ran': False}
+
+    def local(frame, event, arg):
+        if event == 'line' and not out['ran']:
+            count[0] += 1
+            if count[0] == k:
+                out['ran'] = True
+                sys.settrace(None)
+                try:
+                    out['b'] = fn_b()
+                finally:
+                    sys.settrace(tracer)
+        return local
+
+    def tracer(frame, event, arg):
+        if only_substr in frame.f_code.co_filename:
+            return local
+        return None
+
+    old = sys.gettrace()
+    sys.settrace(tracer)
+    try:
+        a = fn_a()
+    finally:
+        sys.settrace(old)
+    return a, out['b'], out['ran']
